@@ -438,6 +438,54 @@ def w_unit(task):
     return part
 
 
+def w_shared_context(task):
+    """histories on ONE Context: trace f, then g (same dtype); g must compute exactly what it computes when traced in a
+    fresh Context."""
+    fa = setup_repo_import()
+    part = new_part()
+    cname = task["dtype"]
+    ct, ft, _ = CT[cname]
+    fi = np.finfo(ft)
+    big = float(fi.max)
+    v = [0.0, 0.5, 1.0, 1.5, 1e3, 1e-3, float(fi.smallest_normal), float(np.sqrt(fi.max)), 0.5 * float(np.sqrt(fi.max)), 0.4 * big, 0.6 * big, big, float(np.sqrt(fi.eps)), 1e-5]
+    with np.errstate(all="ignore"):
+        S = np.array(v + [-a for a in v], dtype=ft)
+    X, Y = (a.ravel() for a in np.meshgrid(S, S, indexing="ij"))
+    for f, g in task["pairs"]:
+        it = get_interp(fa, g, cname)
+        if isinstance(it, Exception):
+            continue
+        part["evaluations"] += 1
+        want = evalf(fa, g, cname, X, Y)
+        try:
+            with quiet():
+                ctx = fa.Context(paths=[fa.algorithms])
+                expand.expanded_graph(fa, f, ct, ctx=ctx)
+                g2 = expand.expanded_graph(fa, g, ct, ctx=ctx)
+            with np.errstate(all="ignore"):
+                got = np.asarray(interp.Interp(fa, g2).run(_cplx(X, Y, ct)))
+        except Exception as e:
+            add_violation(part, f"shared-context:{g}-after-{f}:{cname}:raises", f"one Context: tracing {f} then {g} [{cname}] raised {type(e).__name__}: {e}", {"func": g, "dtype": cname, "x": "0x0p+0", "y": "0x0p+0", "shared": [f, g]})
+            continue
+        if f != g:
+            part["nontrivial"] += 1
+        want = np.asarray(want)
+        gr, gi, wr, wi = (np.asarray(a, dtype=ft) for a in (got.real, got.imag, want.real, want.imag))
+        ui = FMT[np.dtype(ft).name]["ui"]
+        neq = ~(((gr.view(ui) == wr.view(ui)) | (np.isnan(gr) & np.isnan(wr))) & ((gi.view(ui) == wi.view(ui)) | (np.isnan(gi) & np.isnan(wi))))
+        if neq.any():
+            i = int(np.flatnonzero(neq)[0])
+            add_violation(part, f"shared-context:{g}-after-{f}:{cname}:differs-from-fresh-context", f"one Context: {g} traced after {f} [{cname}] returns {got[i]!r} at ({X[i]!r},{Y[i]!r}); traced in a fresh Context {want[i]!r}", {"func": g, "dtype": cname, "x": float(X[i]).hex(), "y": float(Y[i]).hex(), "shared": [f, g]})
+    part["samples"].append({"shared_context_pairs": cname, "pairs": task["pairs"][:3]})
+    return part
+
+
+def _cplx(X, Y, ct):
+    z = np.empty(X.shape, dtype=ct)
+    z.real, z.imag = X, Y
+    return z
+
+
 def w_conformance(task):
     """replay a sub-lattice through the emitted NumPy code: bit identity with mc.interp."""
     fa = setup_repo_import()
@@ -516,6 +564,11 @@ def run(run):
         for lo in range(0, ng, 10):
             rtasks.append(dict(kind="binades", dtype=cname, mantissas=m, seed=run.seed, lo=lo, hi=lo + 10, funcs=CFUNCS))
     run.map(MOD, "w_rate", rtasks)
+    if thorough:
+        spairs = [[f, g] for f in CFUNCS for g in CFUNCS]
+    else:
+        spairs = [[CFUNCS[(i + 1 + run.seed) % len(CFUNCS)], g] for i, g in enumerate(CFUNCS)] + [["asinh", "acosh"], ["acosh", "asinh"], ["log", "log1p"], ["log1p", "log"], ["asin", "acos"], ["sqrt", "asin"]]
+    run.map(MOD, "w_shared_context", [dict(dtype=cname, pairs=spairs[lo::8]) for cname in CT for lo in range(8)])
     utasks = [dict(dtype=cname, seed=run.seed, mantissas=16 if thorough else 6, lo=lo, stride=16, funcs=CFUNCS) for cname in CT for lo in range(16)]
     run.map(MOD, "w_unit", utasks)
     print(f"[C01] rate lattices: {len(rtasks)} tasks {time.time() - t0:.0f}s", file=sys.stderr, flush=True)
